@@ -1,5 +1,6 @@
 import FractopoModel.Model.Cache
 import FractopoModel.Generated.CacheDecorated
+import FractopoModel.Generated.GridSampling
 /-!
 # C17 — the disk cache is transparent
 
@@ -126,6 +127,24 @@ theorem C17_decorated :
     · simp [List.elem, h]
     · have : (x == "0") = false := by simpa using h
       simp [List.elem, h, this]
+
+/-- **The cached grid sampling never gets the caller's grid itself** (regenerated `run_grid_sampling`, the copy an explicit parameter): with a precursor grid the
+body samples INTO `copy_ g` and returns that; the caller's `g` is only read by the copy. So what a call does to the caller's grid cannot depend on whether the body ran
+(a miss) or was skipped (a hit): it does nothing either way. -/
+theorem C17_grid_sampling_samples_a_copy {L Gr R : Type} (empty_result : R) (is_frame : Option Gr → Bool) (dflt : Gr) (copy_ : Gr → Gr) (isclose0 : Rat → Bool)
+    (create_grid_ : Rat → List L → Gr) (sample_ : Gr → R) (traces branches : List L) (w : Rat) (g : Gr) (ht : traces.isEmpty = false) (hf : is_frame (some g) = true) :
+    Gen.run_grid_sampling empty_result is_frame dflt copy_ isclose0 create_grid_ sample_ traces branches w (some g) = .ok (sample_ (copy_ g)) ∧
+    (∀ g' : Gr, copy_ g' = copy_ g → is_frame (some g') = true →
+      Gen.run_grid_sampling empty_result is_frame dflt copy_ isclose0 create_grid_ sample_ traces branches w (some g') = .ok (sample_ (copy_ g))) := by
+  have key : ∀ x : Gr, is_frame (some x) = true →
+      Gen.run_grid_sampling empty_result is_frame dflt copy_ isclose0 create_grid_ sample_ traces branches w (some x) = .ok (sample_ (copy_ x)) := by
+    intro x hx
+    unfold Gen.run_grid_sampling
+    simp [ht, hx]
+  exact ⟨key g hf, fun g' hc hf' => by rw [key g' hf', hc]⟩
+
+example : Gen.run_grid_sampling (0 : Nat) (fun (o : Option Nat) => o.isSome) 0 (fun g => g + 100) (fun _ => false) (fun _ (_ : List Nat) => 0) (fun g => g * 2) [1] [] 1 (some 7) = .ok 214 := by
+  decide +kernel
 
 /-- FINDING F10 in the model: a damage that keeps the entry loadable but changes its value
 (`LoadLaw` violated) is returned silently -/
